@@ -1,4 +1,5 @@
 import MidnightZK.Proofs.C18.Fail
+import MidnightZK.Proofs.C18.Bound
 import MidnightZK.Gen.C18Tables
 import MidnightZK.Gen.C18Serde
 import MidnightZK.Proofs.C18.JsonRoundTrip
@@ -59,6 +60,102 @@ gadget, the Jubjub curve constant `d`, the order of the Jubjub subgroup. -/
 theorem constants_match_source :
     Gen.log2Base = LOG2_BASE ∧ Gen.edwardsD = EdD ∧ Gen.jubjubOrder = RJ := by
   decide
+
+/-! ## Every operation has both semantics in the model -/
+
+/-- Table of mirrors: each function declared in `zkir/src/instructions/operations/*.rs` (outside
+the test modules) with the Lean definition(s) of the model that mirror it — off-circuit semantics
+(`…Off`, evaluated by `opOff`) and in-circuit gadget-level semantics (`…In`, evaluated by `opIn`).
+The double-backtick names are resolved by Lean: a renamed or deleted definition breaks the build.
+`add` / `sub` / `mul` / `neg` are the `std::ops` impls on `IrValue` (panicking wrappers of the
+`*_offcircuit` functions, not used by the interpreters); `check_loadable` / `convert_values` are
+helpers of `load.rs` (the `BigUint(0)` test and `TryFrom` of each value). -/
+def mirrors : List (String × List Lean.Name) := [
+  ("add_offcircuit", [``addOff]), ("add_incircuit", [``addIn, ``addShape]), ("add", [``addOff]),
+  ("affine_coordinates_offcircuit", [``affineOff]), ("affine_coordinates_incircuit", [``affineIn]),
+  ("assert_equal_incircuit", [``comparableIn]), ("assert_not_equal_incircuit", [``comparableIn]),
+  ("from_bytes", [``fromBytesOff]), ("from_bytes_incircuit", [``fromBytesIn, ``fromBytesShape]),
+  ("inner_product_offcircuit", [``innerProductOff, ``ipFoldOff]),
+  ("inner_product_incircuit", [``innerProductIn, ``ipFoldIn, ``msmFold]),
+  ("into_bytes", [``intoBytesOff]), ("into_bytes_incircuit", [``intoBytesIn]),
+  ("is_equal_incircuit", [``comparableIn]),
+  ("check_loadable", [``loadOff]), ("load_offcircuit", [``loadOff]),
+  ("load_incircuit", [``loadCVal, ``assignBoundedShape]), ("convert_values", [``loadCVal]),
+  ("mod_exp_offcircuit", [``modExpOff]), ("mod_exp_incircuit", [``modExpIn, ``modExpShape]),
+  ("mul_offcircuit", [``mulOff]), ("mul_incircuit", [``mulIn, ``mulShape]), ("mul", [``mulOff]),
+  ("neg_offcircuit", [``negOff]), ("neg_incircuit", [``negIn]), ("neg", [``negOff]),
+  ("poseidon_offcircuit", [``opOff, ``asNative]), ("poseidon_incircuit", [``opIn, ``asNativeIn]),
+  ("as_public_input", [``encodeOne]), ("publish_incircuit", [``publishIn, ``publishAll]),
+  ("sha256_offcircuit", [``opOff, ``asBytes]), ("sha256_incircuit", [``opIn, ``asBytesIn]),
+  ("sha512_offcircuit", [``opOff, ``asBytes]), ("sha512_incircuit", [``opIn, ``asBytesIn]),
+  ("sub_offcircuit", [``subOff]), ("sub_incircuit", [``subIn, ``subShape]), ("sub", [``subOff])]
+
+/-- **No operation file and no function of `instructions/operations/` is outside the model**: the
+directory holds exactly one file per operation (17, regenerated from the directory listing on
+every run), and every function they declare has an entry in `mirrors`. A new operation file or a
+new function makes this theorem fail until a mirror is added. -/
+theorem operation_sources_all_mirrored :
+    Gen.opSources.map (·.1) = ["add", "affine_coordinates", "assert_equal", "assert_not_equal",
+      "from_bytes", "inner_product", "into_bytes", "is_equal", "load", "mod_exp", "mul", "neg",
+      "poseidon", "publish", "sha256", "sha512", "sub"] ∧
+    (Gen.opSources.flatMap (·.2)).all (fun f => (mirrors.map (·.1)).contains f) = true ∧
+    (mirrors.map (·.1)).all (fun f => (Gen.opSources.flatMap (·.2)).contains f) = true := by
+  decide
+
+/-- What the off-circuit dispatch of the model (`opOff`) does for an operation: the per-operation
+functions it evaluates (`cmp==` / `cmp!=`: derived equality of `IrValue`) and the inputs it passes,
+in order — in the format of `Gen.offDispatch`. -/
+def Op.offCall : Op → List String × List String
+  | .load _ => (["get_t", "load_offcircuit"], ["payload:yes"])
+  | .publish => ([], ["*"])
+  | .assertEq => (["cmp!="], ["0", "1", "0", "1"])
+  | .assertNe => (["cmp=="], ["0", "1", "0", "1"])
+  | .isEq => (["cmp=="], ["0", "1"])
+  | .add => (["add_offcircuit"], ["0", "1"])
+  | .sub => (["sub_offcircuit"], ["0", "1"])
+  | .mul => (["mul_offcircuit"], ["0", "1"])
+  | .neg => (["neg_offcircuit"], ["0"])
+  | .modExp _ => (["mod_exp_offcircuit"], ["0", "1", "payload:yes"])
+  | .innerProduct => (["inner_product_offcircuit"], ["..inps.len()/2", "inps.len()/2.."])
+  | .affine => (["affine_coordinates_offcircuit"], ["0"])
+  | .intoBytes _ => (["into_bytes"], ["0", "payload:yes"])
+  | .fromBytes _ => (["from_bytes", "get_type"], ["0", "0", "payload:yes"])
+  | .poseidon => (["poseidon_offcircuit"], ["*"])
+  | .sha256 => (["sha256_offcircuit"], ["0"])
+  | .sha512 => (["sha512_offcircuit"], ["0"])
+
+/-- Same for the in-circuit dispatch (`opIn`). -/
+def Op.inCall : Op → List String × List String
+  | .load _ => (["get_t", "load_incircuit"], ["payload:yes"])
+  | .publish => (["get_type", "publish_incircuit"], ["*"])
+  | .assertEq => (["assert_equal_incircuit"], ["0", "1"])
+  | .assertNe => (["assert_not_equal_incircuit"], ["0", "1"])
+  | .isEq => (["is_equal_incircuit"], ["0", "1"])
+  | .add => (["add_incircuit"], ["0", "1"])
+  | .sub => (["sub_incircuit"], ["0", "1"])
+  | .mul => (["mul_incircuit"], ["0", "1"])
+  | .neg => (["neg_incircuit"], ["0"])
+  | .modExp _ => (["mod_exp_incircuit"], ["0", "1", "payload:yes"])
+  | .innerProduct => (["inner_product_incircuit"], ["..inps.len()/2", "inps.len()/2.."])
+  | .affine => (["affine_coordinates_incircuit"], ["0"])
+  | .intoBytes _ => (["into_bytes_incircuit"], ["0", "payload:yes"])
+  | .fromBytes _ => (["from_bytes_incircuit"], ["0", "payload:yes"])
+  | .poseidon => (["poseidon_incircuit"], ["*"])
+  | .sha256 => (["sha256_incircuit"], ["0"])
+  | .sha512 => (["sha512_incircuit"], ["0"])
+
+/-- **The two `process_instruction` dispatches are the ones the model implements**: for each of
+the 17 operations, the arm of `parser/offcircuit.rs` and of `parser/incircuit.rs` (parsed from the
+sources on every run) calls the per-operation function the model mirrors, on the same inputs in
+the same order (`inps[0]`, `inps[1]`, the two halves, the whole vector) and uses the payload. A
+swapped argument order, a dropped argument, an arm calling another operation's function or an
+ignored payload changes the generated table and breaks this theorem (the behavioural change is in
+addition seen by the correspondence). -/
+theorem dispatch_matches_source (op : Op) :
+    (op.name, op.offCall.1, op.offCall.2) ∈ Gen.offDispatch ∧
+    (op.name, op.inCall.1, op.inCall.2) ∈ Gen.inDispatch ∧
+    Gen.offDispatch.length = 17 ∧ Gen.inDispatch.length = 17 := by
+  cases op <;> simp only [Op.name, Op.offCall, Op.inCall] <;> decide
 
 /-! ## Loader and arity -/
 
@@ -200,7 +297,7 @@ theorem off_fail_unsat_partial (H : Hashes) (p : Program) (w : Witness) (e : Err
   have h' := (Except.map_err_iff _ _ _).1 h
   have hinv0 : Inv ({} : OffState) ({} : InState) :=
     ⟨.nil, rfl, rfl, fun pi h => by simp [encodePI] at h; exact h⟩
-  rcases runFail H w hw p {} {} e hinv0 hreg h' with ⟨e', he'⟩ | ⟨si, hsi, hs⟩
+  rcases runFail H w hw p {} {} e hinv0 hreg h' with ⟨e', he'⟩ | ⟨_, si, hsi, hs⟩
   · simp [evalIn, he', Except.map]
   · simp [evalIn, hsi, Except.map, hs]
 
@@ -213,6 +310,68 @@ example (H : Hashes) :
     evalIn H p [("x", .big 5), ("y", .big 6)] = .ok none ∧
     evalOff H p [("x", .big 6), ("y", .big 6)] = .ok [.big 0] ∧
     evalIn H p [("x", .big 6), ("y", .big 6)] = .ok (some [0]) := by
+  refine ⟨?_, ?_, ?_, ?_⟩ <;> rfl
+
+/-- **Typing errors agree** (`typing_errors_agree` of the design), at full strength for every
+operation except the recorded comparison gap. For every program, every witness with canonical
+scalars and all hash functions (hypothesis `RunRegular` = finding N7 only):
+
+1. if the off-circuit interpreter rejects with an error that is *not* a condition on the witness
+   — an unsupported type combination, an ill-typed or missing witness entry, an unknown or
+   duplicated name, a non-byte input of `FromBytes`, a non-native input of `Poseidon`, vectors of
+   different length, a malformed constant — then the in-circuit pass returns an **error value** as
+   well (not merely an unsatisfied circuit): ill-typed programs are rejected by both sides;
+2. conversely, if the in-circuit pass returns an error value that is not one of the two recorded
+   static rejections (`Unsupported` raised by `AssertEqual` / `AssertNotEqual` / `IsEqual`, whose
+   off-circuit versions are deliberately more general; a limb-bookkeeping panic of the BigUint
+   gadget), then the off-circuit interpreter rejects too;
+3. a witness condition (assertion, underflow, range, zero modulus) is the only way for the
+   in-circuit pass to run to the end with a violated constraint after an off-circuit rejection.
+
+The negation of (2) without the exception is `typing_errors_agree_fails_for_comparisons`. -/
+theorem typing_errors_agree (H : Hashes) (p : Program) (w : Witness)
+    (hw : WitnessCanonical w) (hreg : RunRegular H w {} p) :
+    (∀ e, evalOff H p w = .error e → e.isWitnessCondition = false →
+      ∃ e', evalIn H p w = .error e') ∧
+    (∀ e', evalIn H p w = .error e' → e'.isStaticReject = false →
+      ∃ e, evalOff H p w = .error e) ∧
+    (∀ e, evalOff H p w = .error e → evalIn H p w = .ok none → e.isWitnessCondition = true) := by
+  have hinv0 : Inv ({} : OffState) ({} : InState) :=
+    ⟨.nil, rfl, rfl, fun pi h => by simp [encodePI] at h; exact h⟩
+  have key : ∀ e, evalOff H p w = .error e →
+      (∃ e', evalIn H p w = .error e') ∨
+      (e.isWitnessCondition = true ∧ evalIn H p w = .ok none) := by
+    intro e h
+    unfold evalOff at h
+    have h' := (Except.map_err_iff _ _ _).1 h
+    rcases runFail H w hw p {} {} e hinv0 hreg h' with ⟨e', he'⟩ | ⟨hwc, si, hsi, hs⟩
+    · exact .inl ⟨e', by simp [evalIn, he', Except.map]⟩
+    · exact .inr ⟨hwc, by simp [evalIn, hsi, Except.map, hs]⟩
+  refine ⟨fun e h hn => ?_, fun e' h hn => ?_, fun e h hnone => ?_⟩
+  · rcases key e h with h1 | ⟨hwc, _⟩
+    · exact h1
+    · rw [hwc] at hn; cases hn
+  · cases hoff : evalOff H p w with
+    | error e => exact ⟨e, rfl⟩
+    | ok P =>
+      rcases off_in_agree_partial H p w P hw hreg hoff with ⟨e, he, hs⟩ | ⟨st, _, hst, _⟩
+      · rw [h] at he; cases he; rw [hs] at hn; cases hn
+      · rw [h] at hst; cases hst
+  · rcases key e h with ⟨e', he'⟩ | ⟨hwc, _⟩
+    · rw [hnone] at he'; cases he'
+    · exact hwc
+
+/-- Non-vacuity of the three parts: `Add` on a Bool and a Native is an error value on both sides;
+`Poseidon` on bytes likewise; the `Sub` underflow is a witness condition and gives `ok none`. -/
+example (H : Hashes) :
+    let p : Program := [⟨.load .bool, [], ["a"]⟩, ⟨.load .native, [], ["b"]⟩, ⟨.add, ["a", "b"], ["c"]⟩]
+    let w : Witness := [("a", .bool true), ("b", .native 1)]
+    evalOff H p w = .error (.unsupported .add [.bool, .native]) ∧
+    evalIn H p w = .error (.unsupported .add [.bool, .native]) ∧
+    evalOff H [⟨.load (.bytes 1), [], ["a"]⟩, ⟨.poseidon, ["a"], ["c"]⟩] [("a", .bytes [7])]
+      = .error .typeConvert ∧
+    evalIn H [⟨.load (.bytes 1), [], ["a"]⟩, ⟨.poseidon, ["a"], ["c"]⟩] [("a", .bytes [7])]
+      = .error .typeConvert := by
   refine ⟨?_, ?_, ?_, ?_⟩ <;> rfl
 
 /-- Typing gap in the other direction, kept visible: the in-circuit pass rejects comparisons
@@ -265,6 +424,80 @@ example : ∀ i ∈ ([⟨.load (.big 8), [], ["x", "y"]⟩, ⟨.sub, ["x", "y"],
   intro i hi
   simp only [List.mem_cons, List.not_mem_nil, or_false] at hi
   rcases hi with rfl | rfl | rfl <;> simp
+
+/-! ## `format_instance` succeeds on what the circuit publishes -/
+
+/-- **The public-input equality without the `format_instance` hypothesis.** In
+`off_in_agree_partial` the equality `format_instance(P, types) = bound public inputs` is stated
+for the case that `format_instance` returns a value. Here that is proved: along every run on which
+both interpreters succeed, every BigUint in the in-circuit memory is bounded by its limb bounds
+(`CValOK`: sums, products, differences, remainders, byte conversions, loads, constants — the
+shape bookkeeping of `biguint_gadget.rs` over-approximates the arithmetic), so `check_type` of the
+off-circuit value against the recorded width `BigUint(nb_bits)` succeeds at every `Publish`, and
+`format_instance` returns exactly the vector the circuit binds.
+
+The two extra hypotheses hold automatically for Rust values: byte arrays of the witness and the
+digests hold bytes (`BytesOK`: `Vec<u8>`), and operation payloads fit their integer types
+(`Op.InRange`: `ModExp(u64)` — the square-and-multiply loop of the gadget runs 64 iterations).
+Still `_partial` for the two reasons of `off_in_agree_partial` that are genuine: `RunRegular`
+(finding N7) and the static-rejection alternative. -/
+theorem off_in_agree_public_inputs_partial (H : Hashes) (p : Program) (w : Witness) (P : List IrValue)
+    (hw : WitnessCanonical w) (hb : BytesOK H w) (hr : ∀ i ∈ p, i.op.InRange)
+    (hreg : RunRegular H w {} p) (h : evalOff H p w = .ok P) :
+    (∃ e, evalIn H p w = .error e ∧ e.isStaticReject = true) ∨
+    (∃ st, runIn H (some w) {} p = .ok st ∧ evalIn H p w = .ok (some st.pis) ∧
+      encodePI P st.piTypes = .ok st.pis) := by
+  rcases off_in_agree_partial H p w P hw hreg h with hs | ⟨st, hst, hev, _, hpi⟩
+  · exact .inl hs
+  · refine .inr ⟨st, hst, hev, ?_⟩
+    unfold evalOff at h
+    obtain ⟨so, hso, rfl⟩ := (Except.map_ok_iff _ _ _).1 h
+    have hinv0 : Inv ({} : OffState) ({} : InState) :=
+      ⟨.nil, rfl, rfl, fun pi h => by simp [encodePI] at h; exact h⟩
+    have hm0 : MemOK ({} : InState).mem := by intro n cv k hl; simp [lookup] at hl
+    have he0 : EncOK ({} : OffState) ({} : InState) := ⟨[], rfl⟩
+    obtain ⟨⟨pi, hpi'⟩, _⟩ := runEnc H w hw hb p {} {} so st hinv0 hm0 he0 hr hreg hso hst
+    rw [hpi', hpi pi hpi']
+
+/-- `format_instance` is total on the published values of every program without
+`FromBytes(JubjubScalar)`: whenever both interpreters run, it returns the bound public inputs. -/
+theorem format_instance_total_no_scalar_conversion (H : Hashes) (p : Program) (w : Witness)
+    (P : List IrValue) (st : InState) (hw : WitnessCanonical w) (hb : BytesOK H w)
+    (hr : ∀ i ∈ p, i.op.InRange) (hp : ∀ i ∈ p, i.op ≠ .fromBytes .scalar)
+    (h : evalOff H p w = .ok P) (hst : runIn H (some w) {} p = .ok st) :
+    encodePI P st.piTypes = .ok st.pis := by
+  rcases off_in_agree_public_inputs_partial H p w P hw hb hr
+      (runRegular_of_no_scalar_conversion H w p {} hp) h with ⟨e, he, _⟩ | ⟨st', hst', _, henc⟩
+  · simp [evalIn, hst, Except.map] at he
+  · rw [hst] at hst'; cases hst'; exact henc
+
+set_option maxRecDepth 20000 in
+/-- Non-vacuity: hash functions and a witness satisfying `BytesOK`, a program with a BigUint
+product, a sum with a constant, a modular exponentiation and a byte conversion: the hypotheses
+hold and `format_instance` returns the public inputs the circuit binds (the product of two
+64-bit values is published with the width `BigUint(192)` — two full limbs — that the normalised
+limb bounds give). -/
+example :
+    let H : Hashes := ⟨fun _ => [], fun _ => [], fun _ => 0⟩
+    let p : Program := [⟨.load (.big 64), [], ["x", "y"]⟩, ⟨.mul, ["x", "y"], ["z"]⟩,
+      ⟨.add, ["z", "BigUint:01"], ["t"]⟩, ⟨.modExp 3, ["t", "y"], ["m"]⟩,
+      ⟨.intoBytes 3, ["m"], ["b"]⟩, ⟨.publish, ["z", "m", "b"], []⟩]
+    let w : Witness := [("x", .big 300), ("y", .big 1000)]
+    BytesOK H w ∧ (∀ i ∈ p, i.op.InRange) ∧ (∀ i ∈ p, i.op ≠ .fromBytes .scalar) ∧
+    evalOff H p w = .ok [.big 300000, .big 1, .bytes [1, 0, 0]] ∧
+    (runIn H (some w) {} p).map (fun st => (st.piTypes, st.pis)) =
+      .ok ([.big 192, .big 64, .bytes 3], [300000, 0, 1, 1, 0, 0]) := by
+  refine ⟨⟨fun _ b hb => by simp at hb, fun _ b hb => by simp at hb, fun n bs h => ?_⟩, ?_, ?_, by rfl, by rfl⟩
+  · simp [lookup] at h
+    split at h
+    · simp at h
+    · split at h <;> simp at h
+  · intro i hi
+    simp only [List.mem_cons, List.not_mem_nil, or_false] at hi
+    rcases hi with rfl | rfl | rfl | rfl | rfl | rfl <;> simp [Op.InRange, IrType.InRange]
+  · intro i hi
+    simp only [List.mem_cons, List.not_mem_nil, or_false] at hi
+    rcases hi with rfl | rfl | rfl | rfl | rfl | rfl <;> simp
 
 /-! ## Binary round trip (`write_relation` / `read_relation`) -/
 
@@ -352,6 +585,28 @@ theorem decode_canonical_partial (P : BParams) (bs rest : List Nat) (p : Program
     bs = encodeBin p ++ rest ∧ decodeBinPrefix false P bs = .ok (p, rest) :=
   ⟨decodeBinPrefix_canon h hwf, decodeBinPrefix_lax h⟩
 
+/-- **Canonical form as an equivalence** (the precise statement behind
+`decode_canonical_partial`). For a byte string `bs`, a program `p` that is the image of a Rust
+value and within the allocation limit, and any continuation `rest`:
+
+* the *strict* decoder returns `(p, rest)` on `bs` **iff** `bs` is literally
+  `write_relation(p) ++ rest` — its accepted language is exactly the encoder's image;
+* the *real* decoder (`read_relation`, bincode's lenient varints) returns `(p, rest)` on
+  `write_relation(p) ++ rest` as well, and on every input the strict one accepts.
+
+So a byte string that `read_relation` accepts but the strict decoder rejects is never a round-trip
+violation (by `decode_canonical_partial` + this theorem it differs from a canonical encoding only in
+the width of some integer — witnesses in `decode_not_canonical`); it is a *canonicity* observation:
+the serialized relation is malleable (several byte strings, one program). Recorded as such in
+`checks/c18.py`, not as a defect: nothing in the repository compares or hashes the bytes of a
+relation that was read rather than written. -/
+theorem decode_strict_iff_encoder_output (P : BParams) (bs rest : List Nat) (p : Program)
+    (hwf : BytesWF bs) (hr : ProgInRange p) (hl : claimBound P p ≤ P.limit) :
+    (decodeBinPrefix true P bs = .ok (p, rest) ↔ bs = encodeBin p ++ rest) ∧
+    decodeBinPrefix false P (encodeBin p ++ rest) = .ok (p, rest) := by
+  refine ⟨⟨fun h => decodeBinPrefix_canon h hwf, fun h => ?_⟩, decodeBinPrefix_enc false P p rest hr hl⟩
+  rw [h]; exact decodeBinPrefix_enc true P p rest hr hl
+
 /-- Witness that the real decoder is not canonical: the one-instruction program `Publish x` is
 also accepted when its instruction count `1` is written `fb 01 00`, when the variant index of
 `Publish` is written `fc 01 00 00 00`, or when a name length is written with 8 bytes; the strict
@@ -393,6 +648,34 @@ example : fromJson (toJson [⟨.load (.bytes 5), [], ["x"]⟩, ⟨.publish, ["x"
     intro i hi
     simp only [List.mem_cons, List.not_mem_nil, or_false] at hi
     rcases hi with rfl | rfl <;> simp [Op.InRange, IrType.InRange])
+
+/-- **JSON round trip with defaults, for every instruction of every variant.** The fields
+`inputs` / `outputs` carry `#[serde(default)]`: the object that leaves out each of them when it is
+empty (`instrToJsonMin`, the form hand-written programs use: `{"op": "publish", "inputs": [..]}`)
+and the positional array without the trailing empty fields (`instrToJsonSeq`) are read back as
+the same program — for all 17 operations, every payload in range and all name lists. -/
+theorem fromJson_defaults (p : Program) (hr : ∀ i ∈ p, i.op.InRange) :
+    fromJson (.obj [("instructions", .arr (p.map instrToJsonMin))]) = .ok p ∧
+    fromJson (.obj [("instructions", .arr (p.map instrToJsonSeq))]) = .ok p ∧
+    fromJson (.arr [.arr (p.map instrToJsonMin)]) = .ok p := by
+  refine ⟨?_, ?_, ?_⟩
+  · simp [fromJson, progFields, instrsFromJson, instrsFromJson_min p hr]
+  · simp [fromJson, progFields, instrsFromJson, instrsFromJson_seq p hr]
+  · simp [fromJson, instrsFromJson, instrsFromJson_min p hr]
+
+/-- Non-vacuity: one instruction of each shape of default (`Load` has no inputs, `Publish` no
+outputs, `Add` has both), and the trees are the compact ones. -/
+example :
+    let p : Program := [⟨.load (.big 8), [], ["x"]⟩, ⟨.add, ["x", "x"], ["y"]⟩, ⟨.publish, ["y"], []⟩]
+    (∀ i ∈ p, i.op.InRange) ∧
+    p.map instrToJsonMin = [
+      .obj [("op", .obj [("load", .obj [("BigUint", .num 8)])]), ("outputs", .arr [.str "x"])],
+      .obj [("op", .str "add"), ("inputs", .arr [.str "x", .str "x"]), ("outputs", .arr [.str "y"])],
+      .obj [("op", .str "publish"), ("inputs", .arr [.str "y"])]] := by
+  refine ⟨?_, by rfl⟩
+  intro i hi
+  simp only [List.mem_cons, List.not_mem_nil, or_false] at hi
+  rcases hi with rfl | rfl | rfl <;> simp [Op.InRange, IrType.InRange]
 
 /-- The reader is more liberal than the writer (kept visible): `inputs` / `outputs` may be
 omitted, unknown keys are ignored, a unit variant may be written `{"publish": null}`, an
